@@ -3,6 +3,7 @@ package exec
 import (
 	"fmt"
 	"sort"
+	"strings"
 	"testing"
 
 	"pgregory.net/rapid"
@@ -44,6 +45,42 @@ func genCaseC08(t *rapid.T) *c08Case {
 					}
 				}
 			}
+		}
+	}
+	if rapid.IntRange(0, 2).Draw(t, "refusedMemberships") == 0 {
+		// before any request the root is given a document that would make objects implement further
+		// interfaces and join further unions - and that is refused for something else it holds: what
+		// the objects are resolved as, and which fragments apply to them, is as if it had never been seen
+		var b strings.Builder
+		for _, td := range base.Schema.Types {
+			if td.Kind != hx.KObject {
+				continue
+			}
+			for _, other := range base.Schema.Types {
+				switch {
+				case other.Kind == hx.KInterface && !contains(td.Interfaces, other.Name):
+					var missing []string
+					for _, f := range other.Fields {
+						if td.Field(f.Name) == nil {
+							var args []string
+							for _, a := range f.Args {
+								args = append(args, a.Name+": "+a.Type.String())
+							}
+							as := ""
+							if len(args) > 0 {
+								as = "(" + strings.Join(args, ", ") + ")"
+							}
+							missing = append(missing, f.Name+as+": "+f.Type.String())
+						}
+					}
+					fmt.Fprintf(&b, "extend type %s implements %s { %s }\n", td.Name, other.Name, strings.Join(missing, " "))
+				case other.Kind == hx.KUnion && !other.HasMember(td.Name):
+					fmt.Fprintf(&b, "extend union %s = %s\n", other.Name, td.Name)
+				}
+			}
+		}
+		if b.Len() > 0 {
+			base.RefusedSDL = b.String() + "interface ZqRefI { b: Int }\ntype ZqRefT implements ZqRefI { a: Int }\n"
 		}
 	}
 	cc := &c08Case{Base: base, Bind: bind}
@@ -113,6 +150,9 @@ func TestC08(t *testing.T) {
 		}
 		if len(c.LateJoin) > 0 {
 			cl = append(cl, "memberships-by-extension-after-first-use(requested)")
+		}
+		if c.RefusedSDL != "" {
+			cl = append(cl, "refused-document-with-further-memberships-first")
 		}
 		for tn, b := range bind {
 			fam := "X"
@@ -318,4 +358,13 @@ func condKinds(c *Case, exp *hx.Expect) []string {
 	}
 	sort.Strings(out)
 	return out
+}
+
+func contains(l []string, x string) bool {
+	for _, e := range l {
+		if e == x {
+			return true
+		}
+	}
+	return false
 }
